@@ -230,7 +230,7 @@ package fsm
 //@ func (*StateMachine).ApplyTransactions
 //@   callsite Flush requires[onlysuccess] isnil(e)
 //@   loop 1 invariant[aligned] batchVerifier != nil && len(batchToTxIdx) == batchVerifier.count
-//@   loop 2 invariant[fill] len(batchToTxIdx) == j && (preCount <= postCount ==> j <= postCount)
+//@   loop 2 invariant[fill] len(batchToTxIdx) == j && (preCount <= batchVerifier.count ==> j <= batchVerifier.count)
 // the store a transaction's nested txn is wrapped over is exactly the store restored after it: the snapshot is
 // taken after the over-size wrapper (if any) is installed, so over-size transactions can never flush into the
 // block's real working store
